@@ -15,6 +15,8 @@ import threading
 from .core import H, canon
 
 VERIF = os.path.dirname(os.path.dirname(os.path.abspath(__file__)))
+# VERIF_OUT redirects evidence and replays (own mutation testing against a scratch worktree)
+OUT = os.environ.get("VERIF_OUT", VERIF)
 PY = "/venv/bin/python"
 MAIN = os.path.join(VERIF, "sim_main.py")
 
@@ -306,8 +308,12 @@ def launch(pid, tier, master, workers, worlds=None, budget=None, digests_out=Non
     wall_search = time.time() - t0
 
     if digests_out:
-        json.dump({"%d.%d" % (r["i"], r["p"]): r["outcome"].get("digest") for r in results},
+        # determinism self-test mode: dump per-run digests, do not touch evidence or replays
+        json.dump({"%d.%d" % (r["i"], r["p"]): (r["outcome"].get("digest") or str(sorted(r["outcome"].keys()))) for r in results},
                   open(digests_out, "w"), indent=0, sort_keys=True)
+        nv = sum(1 for r in results if r["outcome"].get("violations"))
+        print("%s digests=%d violations=%d errors=%d" % (pid, len(results), nv, len(errors)))
+        return 0
 
     return finish(prop, pid, tier, master, results, errors, t0, wall_search, quiet, state["next"] * bs)
 
@@ -352,7 +358,7 @@ def finish(prop, pid, tier, master, results, errors, t0, wall_search, quiet, wor
             if key not in viol:
                 viol[key] = (r, v)
     total = evals + discarded + herr
-    os.makedirs(os.path.join(VERIF, "replays", pid), exist_ok=True)
+    os.makedirs(os.path.join(OUT, "replays", pid), exist_ok=True)
 
     reported = []
     known_lines = []
@@ -361,7 +367,7 @@ def finish(prop, pid, tier, master, results, errors, t0, wall_search, quiet, wor
     for key in sorted(viol)[:8]:
         r, v = viol[key]
         spec = r["spec"]
-        base = os.path.join(VERIF, "replays", pid, "%s-%d-%d" % (v["clause"].replace(".", "_"), r["i"], r["p"]))
+        base = os.path.join(OUT, "replays", pid, "%s-%d-%d" % (v["clause"].replace(".", "_"), r["i"], r["p"]))
         raw = base + ".raw.json"
         spec["_violation"] = v
         json.dump(spec, open(raw, "w"), indent=1, sort_keys=True)
@@ -431,8 +437,8 @@ def finish(prop, pid, tier, master, results, errors, t0, wall_search, quiet, wor
         "wall_s": round(wall, 2),
         "violations": len(reported),
     }
-    os.makedirs(os.path.join(VERIF, "evidence"), exist_ok=True)
-    json.dump(ev, open(os.path.join(VERIF, "evidence", pid + ".json"), "w"), indent=1, sort_keys=True)
+    os.makedirs(os.path.join(OUT, "evidence"), exist_ok=True)
+    json.dump(ev, open(os.path.join(OUT, "evidence", pid + ".json"), "w"), indent=1, sort_keys=True)
 
     if not quiet:
         print("%s %s seed=%d runs=%d distinct_nontrivial=%d worlds=%d invocations=%d faults_fired=%s sim_time=%.3gs discarded=%d harness_errors=%d wall=%.1fs"
